@@ -293,6 +293,18 @@ func (p *FloatingIPPlugin) syncIP(key string, ip net.IP, pod *corev1.Pod) error 
 			return fmt.Errorf("conflict ip %s found for both %s and %s", ip.String(), key, storedKey)
 		}
 	} else {
+		// the key may hold ips of another incarnation of a pod with this name (see allocateIP): an ip stored for
+		// this pod's uid next to them would be released together with them
+		keyIPInfos, err := p.ipam.ByKeyAndIPRanges(key, nil)
+		if err != nil {
+			return err
+		}
+		for _, ipInfo := range keyIPInfos {
+			if ipInfo != nil && ipInfo.PodUid != "" && ipInfo.PodUid != string(pod.UID) {
+				return fmt.Errorf("%s holds ip %s of another pod uid %s, not giving %s back to uid %s", key,
+					ipInfo.IPInfo.IP.IP.String(), ipInfo.PodUid, ip.String(), string(pod.UID))
+			}
+		}
 		attr := floatingip.Attr{
 			Policy: parseReleasePolicy(&pod.ObjectMeta), NodeName: pod.Spec.NodeName, Uid: string(pod.UID)}
 		if err := p.ipam.AllocateSpecificIP(key, ip, attr); err != nil {
